@@ -120,7 +120,7 @@ def build(spec):
                 f = f'={fn}({T})'
             else:
                 exp = ANY_ERR if n < 0 else (t[:n] if fn == 'LEFT' else (t[L - n:] if 0 < n <= L else (t if n > L else '')))
-                f = f'={fn}({T},{n})'
+                f = f'={fn}({T},{n})' if not (q.get('computed') and n >= 0) else f'={fn}({T},{2 * n}/2)'   # a computed count arrives as a float
             if L == 0:
                 trig.append('empty-input-text')
             nt = n is None or n in (0, L, L - 1, L + 1) or L == 0 or bool(SPECIAL & set(t))
@@ -132,7 +132,7 @@ def build(spec):
                 trig.append('mid-start-beyond-text')
             if L == 0:
                 trig.append('empty-input-text')
-            qs.append(Q(f'=MID({T},{k},{n})', exp, 'MID', k in (1, L, L + 1) or n in (0, L) or L == 0 or bool(SPECIAL & set(t)),
+            qs.append(Q(f'=MID({T},{k},{n})' if not (q.get('computed') and k >= 0 and n >= 0) else f'=MID({T},{3 * k}/3,{2 * n}/2)', exp, 'MID', k in (1, L, L + 1) or n in (0, L) or L == 0 or bool(SPECIAL & set(t)),
                         base_tags, meta={'triggers': trig}))
         elif fn == 'REBUILD':
             n = q['n']
@@ -260,9 +260,9 @@ def strategy():
         for _ in range(draw(st.integers(6, 16))):
             fn = draw(st.sampled_from(['LEFT', 'RIGHT', 'MID', 'MID', 'REBUILD', 'AMP', 'CONCATENATE', 'SEARCH', 'SEARCH', 'SEARCH']))
             if fn in ('LEFT', 'RIGHT'):
-                qs.append({'fn': fn, 'n': draw(st.one_of(pos, pos, st.none()))})
+                qs.append({'fn': fn, 'n': draw(st.one_of(pos, pos, st.none())), 'computed': draw(st.integers(0, 4)) == 0})
             elif fn == 'MID':
-                qs.append({'fn': fn, 'k': draw(pos), 'n': draw(pos)})
+                qs.append({'fn': fn, 'k': draw(pos), 'n': draw(pos), 'computed': draw(st.integers(0, 4)) == 0})
             elif fn == 'REBUILD':
                 qs.append({'fn': fn, 'n': draw(st.integers(0, max(0, L - 1)))})
             elif fn in ('AMP', 'CONCATENATE'):
